@@ -19,6 +19,8 @@ Definition opt_eqb {A} (eqb : A -> A -> bool) (a b : option A) : bool :=
 (* observable fields of an ErrorInfo (codes by name; itarget is carried only) *)
 Definition info_eqb (a b : info) : bool :=
   (iid a =? iid b) && (iline a =? iline b) && (icol a =? icol b) && list_eqb Z.eqb (ispan a) (ispan b)
+  && (iendline a =? iendline b) && (iendcol a =? iendcol b) && (ictx a =? ictx b) && (iprio a =? iprio b)
+  && Bool.eqb (ihidden a) (ihidden b)
   && opt_eqb String.eqb (option_map cname (icode a)) (option_map cname (icode b))
   && Bool.eqb (ierror a) (ierror b) && Bool.eqb (iblocker a) (iblocker b) && Bool.eqb (ionce a) (ionce b)
   && String.eqb (imsg a) (imsg b) && opt_eqb Z.eqb (iparent a) (iparent b).
@@ -31,18 +33,26 @@ Record observed := mk_obs {
   o_used : dict;                 (* used_ignored_lines[file], lines with a non-empty list *)
   o_once : list string;          (* sorted(only_once_messages) *)
   o_final : list info;           (* ... after generate_unused_ignore_errors + generate_ignore_without_code_errors *)
-  o_dedup : list info            (* remove_duplicates(o_final) *)
+  o_dedup : list info;           (* remove_duplicates(o_final) *)
+  o_sorted : list info;          (* sort_messages(non-hidden infos of o_final) *)
+  o_printed : list info          (* remove_duplicates(o_sorted): what file_messages renders *)
 }.
 
-Definition check_case (c : cfg) (E : list info) (warn : bool) (lines : list Z) (o : observed) : list bool :=
-  let s := run c E in
+(* unused-ignore / ignore-without-code errors take the import context current at the end (ctx) *)
+Definition with_ctx (ctx : Z) (n : nat) (l : list info) : list info :=
+  firstn n l ++ map (fun i => simple_error_ctx ctx (iline i) (imsg i) (match icode i with Some cd => cd | None => misc end)) (skipn n l).
+
+Definition check_case (c : cfg) (L : lim) (ctx : Z) (E : list info) (warn : bool) (lines : list Z) (o : observed) : list bool :=
+  let s := lcore (run_lim c L false E) in
   let s2 := if has_ignores c then generate_unused_ignore_errors c false s else s in
   let s3 := if has_ignores c then generate_ignore_without_code_errors c warn false s2 else s2 in
   [ list_eqb info_eqb (out s) (o_out o);
     forallb (fun l => list_eqb String.eqb (used_at (used s) l) (lookup_Z (o_used o) l)) lines;
     list_eqb String.eqb (sorted_set (once s)) (o_once o);
-    list_eqb info_eqb (out s3) (o_final o);
-    list_eqb info_eqb (remove_duplicates (out s3)) (o_dedup o) ].
+    list_eqb info_eqb (with_ctx ctx (List.length (out s)) (out s3)) (o_final o);
+    list_eqb info_eqb (remove_duplicates (with_ctx ctx (List.length (out s)) (out s3))) (o_dedup o);
+    list_eqb info_eqb (sort_messages (filter (fun i => negb (ihidden i)) (with_ctx ctx (List.length (out s)) (out s3)))) (o_sorted o);
+    list_eqb info_eqb (final_infos (with_ctx ctx (List.length (out s)) (out s3))) (o_printed o) ].
 
 Definition z3_eqb (a b : Z * Z * Z) : bool :=
   let '(a1, a2, a3) := a in let '(b1, b2, b3) := b in (a1 =? b1) && (a2 =? b2) && (a3 =? b3).
